@@ -151,10 +151,27 @@ func (e *Engine) BindContracts() []string {
 				fn = e.FuncByKey[fc.Key]
 			}
 			if fn == nil {
-				missing = append(missing, fc.Pkg+"."+fc.Key)
+				// a generic function: the contract applies to every instantiation
+				found := false
+				for f := range e.AllFuncs {
+					if o := f.Origin(); o != nil && f != o && o.Pkg != nil && o.Pkg.Pkg.Path() == fc.Pkg && relName(o) == fc.Key {
+						e.Contracts[f] = fc
+						found = true
+					}
+				}
+				if !found {
+					missing = append(missing, fc.Pkg+"."+fc.Key)
+				}
 				continue
 			}
 			e.Contracts[fn] = fc
+			if fn.TypeParams().Len() > 0 || fn.Signature.Recv() != nil {
+				for f := range e.AllFuncs {
+					if o := f.Origin(); o == fn && f != fn {
+						e.Contracts[f] = fc
+					}
+				}
+			}
 		}
 	}
 	return missing
